@@ -274,6 +274,9 @@ func abstractText(v string) string {
 		if v == bigBody {
 			return "BIG"
 		}
+		if v == midBody {
+			return "MID"
+		}
 		return fmt.Sprintf("LONG#%d#%08x", len(v), fnv(v))
 	}
 	if v == uniTitle {
